@@ -150,7 +150,7 @@ func hangLimit() time.Duration {
 			return time.Duration(n) * time.Second
 		}
 	}
-	return 45 * time.Second
+	return 30 * time.Second
 }
 
 // RunParent runs a whole check and returns the process exit code.
@@ -230,15 +230,32 @@ func RunParent(o ParentOpts) int {
 	}
 
 	var mu sync.Mutex
+	confirmedDeaths := 0
 	handleDeath := func(s *shardState, why string) {
 		s.busy.Store(true)
 		go func() {
 			defer s.busy.Store(false)
 			c := *s.status.Word(0)
+			mu.Lock()
+			already := confirmedDeaths
+			mu.Unlock()
+			if already >= 2 {
+				// two deaths are already confirmed as violations: do not spend more time, give this shard up
+				mu.Lock()
+				defer mu.Unlock()
+				deaths++
+				notes = append(notes, fmt.Sprintf("shard %d %s at case #%d; not examined further because two process deaths/hangs were already confirmed in this run (shard abandoned)", s.idx, why, c))
+				s.res = &Result{Shard: s.idx, Groups: map[string]*GroupStat{}, Deadline: true}
+				s.done = true
+				return
+			}
 			f, confirmed, reason := confirmDeath(o, c)
 			mu.Lock()
 			defer mu.Unlock()
 			deaths++
+			if confirmed {
+				confirmedDeaths++
+			}
 			if confirmed {
 				f.Key = "fatal:" + f.Group + ":" + reason
 				f.Desc = fmt.Sprintf("worker process %s while executing this case (%s); reproduced 3/3 in isolation", why, reason)
@@ -397,6 +414,11 @@ func RunParent(o ParentOpts) int {
 			if known[j].Property == o.CheckID && known[j].Key == k {
 				verdicts[i].known = &known[j]
 			}
+		}
+		if verdicts[i].known != nil {
+			// a listed finding never changes the exit code: no confirmation runs needed
+			verdicts[i].reproduced = true
+			continue
 		}
 		if i >= 30 {
 			// beyond 30 distinct keys: keep the replay file, skip the confirmation runs
@@ -595,7 +617,7 @@ func confirmLimit() time.Duration {
 			return time.Duration(n) * time.Second
 		}
 	}
-	return 40 * time.Second
+	return 30 * time.Second
 }
 
 func fatalClass(stderr string) string {
